@@ -11,6 +11,8 @@ import (
 	"fmt"
 	"math"
 	"strconv"
+	"strings"
+	"sync"
 	"testing"
 	"time"
 
@@ -29,6 +31,9 @@ type c20Open struct {
 	// values for temporal-client-cluster-id, temporal-client-shard-id, temporal-server-cluster-id, temporal-server-shard-id;
 	// nil entry = key missing; several entries = duplicated key
 	MD [4][]string `json:"md"`
+	// Hold: the stream stays open (source and initiator idle) while the following opens run; it is ended after the
+	// last arbitrary open - overlapping streams share the bookkeeping
+	Hold bool `json:"hold,omitempty"`
 }
 
 type c20Case struct {
@@ -52,10 +57,13 @@ func c20MD(o c20Open) metadata.MD {
 }
 
 type c20World struct {
-	srv      *adminServiceProxyServer
-	observer *ReplicationStreamObserver
-	sm       ShardManager
-	cancel   context.CancelFunc
+	srv         *adminServiceProxyServer
+	observer    *ReplicationStreamObserver
+	sm          ShardManager
+	cancel      context.CancelFunc
+	mu          sync.Mutex
+	holdNext    bool
+	heldClients []*vfClientStream
 }
 
 func c20NewWorld(c c20Case) *c20World {
@@ -74,10 +82,70 @@ func c20NewWorld(c c20Case) *c20World {
 	ctx, cancel := context.WithCancel(context.Background())
 	obs := NewReplicationStreamObserver(vfNoop())
 	sm := NewShardManager(nil, scc, encryption.TLSConfig{}, lp)
-	endAtOnce := func(_ context.Context, cs *vfClientStream) error { cs.PushEOF(); return nil }
+	w0 := &c20World{}
+	endAtOnce := func(_ context.Context, cs *vfClientStream) error {
+		cs.onCloseSend = func() { cs.PushEOF() }
+		w0.mu.Lock()
+		hold := w0.holdNext
+		if hold {
+			w0.heldClients = append(w0.heldClients, cs)
+		}
+		w0.mu.Unlock()
+		if !hold {
+			cs.PushEOF()
+		}
+		return nil
+	}
 	srv := NewAdminServiceProxyServer("vf", &vfAdminClient{OnOpen: endAtOnce}, &vfAdminClient{OnOpen: endAtOnce}, AdminServiceOverrides{},
 		[]string{"vf"}, obs.ReportStreamValue, scc, lcmP, rp, lp, sm, ctx).(*adminServiceProxyServer)
-	return &c20World{srv: srv, observer: obs, sm: sm, cancel: cancel}
+	w0.srv, w0.observer, w0.sm, w0.cancel = srv, obs, sm, cancel
+	return w0
+}
+
+type c20Held struct {
+	ss   *vfServerStream
+	done chan struct{}
+	p    any
+}
+
+// openHeld starts a stream that stays open until release().
+func (w *c20World) openHeld(md metadata.MD) *c20Held {
+	w.mu.Lock()
+	w.holdNext = true
+	w.mu.Unlock()
+	h := &c20Held{ss: newVFServerStream(context.Background(), "initiator-held", md), done: make(chan struct{})}
+	go func() {
+		defer close(h.done)
+		defer func() {
+			if p := recover(); p != nil {
+				h.p = p
+			}
+		}()
+		_ = w.srv.StreamWorkflowReplicationMessages(h.ss)
+	}()
+	time.Sleep(30 * time.Millisecond) // real time: let the handler register and open its upstream
+	w.mu.Lock()
+	w.holdNext = false
+	w.mu.Unlock()
+	return h
+}
+
+func (w *c20World) release(h *c20Held) bool {
+	h.ss.PushEOF()
+	w.mu.Lock()
+	for _, cs := range w.heldClients {
+		cs.PushEOF()
+	}
+	w.heldClients = nil
+	w.mu.Unlock()
+	select {
+	case <-h.done:
+		h.ss.Kill()
+		return true
+	case <-time.After(15 * time.Second):
+		h.ss.Kill()
+		return false
+	}
 }
 
 // open runs one stream open to completion. ok=false: the handler did not return within the real-time backstop.
@@ -137,8 +205,29 @@ func vfTrunc(s string, n int) string {
 func c20Run(c c20Case) (err error, harness error) {
 	w := c20NewWorld(c)
 	defer w.cancel()
+	var held []*c20Held
+	releaseAll := func() error {
+		for _, h := range held {
+			if !w.release(h) {
+				if !w.observer.streamGrowLock.TryLock() {
+					return fmt.Errorf("a stream that was kept open cannot finish: the stream observer's lock is held")
+				}
+				w.observer.streamGrowLock.Unlock()
+				return fmt.Errorf("HARNESS-INCONCLUSIVE: held stream did not finish within the backstop")
+			}
+			if h.p != nil {
+				return fmt.Errorf("a panic escaped the handler of a stream that was kept open: %v", h.p)
+			}
+		}
+		held = nil
+		return nil
+	}
 	for i, o := range c.Opens {
 		what := fmt.Sprintf("open #%d with metadata %v (mode %s)", i, o.MD, c.Mode)
+		if o.Hold {
+			held = append(held, w.openHeld(c20MD(o)))
+			continue
+		}
 		_, p, ok := w.open(c20MD(o))
 		if p != nil {
 			return fmt.Errorf("%s: a panic escaped the stream handler: %v", what, p), nil
@@ -150,7 +239,22 @@ func c20Run(c c20Case) (err error, harness error) {
 			w.observer.streamGrowLock.Unlock()
 			return nil, fmt.Errorf("%s did not return within the real-time backstop (lock is free: inconclusive)", what)
 		}
-		if e := w.bookkeeping(what); e != nil {
+		if len(held) == 0 {
+			if e := w.bookkeeping(what); e != nil {
+				return e, nil
+			}
+		} else if !c20LockFree(w) {
+			return fmt.Errorf("after %s (other streams still open) the stream observer's lock is still held", what), nil
+		}
+	}
+	if len(held) > 0 {
+		if e := releaseAll(); e != nil {
+			if strings.HasPrefix(e.Error(), "HARNESS-INCONCLUSIVE") {
+				return nil, e
+			}
+			return e, nil
+		}
+		if e := w.bookkeeping("ending the streams that were kept open"); e != nil {
 			return e, nil
 		}
 	}
@@ -267,6 +371,24 @@ func TestVF_C20_Boundary(t *testing.T) {
 			run(c20Case{Mode: mode.m, L: mode.l, R: mode.r, Opens: []c20Open{o}, After: 1})
 		}
 	}
+	// overlapping streams around the observer's thresholds: a stream that stays open (shard x) while another one
+	// (shard y) opens and finishes; both counters must be back to zero afterwards
+	thr := []int64{1023, 1024, 1025, 1152, 1153, 1154, 2367, 2368, (1 << 24) - 1, 1 << 24, (1 << 24) + 1, (1 << 24) + 5}
+	for _, mode := range []string{"default", "routing"} {
+		for _, x := range thr {
+			for _, y := range thr {
+				mk := func(v int64, hold bool) c20Open {
+					o := c20Open{Hold: hold}
+					for k := 0; k < 4; k++ {
+						o.MD[k] = []string{good[k]}
+					}
+					o.MD[3] = []string{strconv.FormatInt(v, 10)}
+					return o
+				}
+				run(c20Case{Mode: mode, L: 4, R: 6, Opens: []c20Open{mk(x, true), mk(y, false)}, After: 1})
+			}
+		}
+	}
 	done := true
 	st.Exhaustive = &done
 }
@@ -300,6 +422,10 @@ func TestVF_C20_Random(t *testing.T) {
 		rapid.Map(rapid.Int64(), func(v int64) string { return strconv.FormatInt(v, 10) }),
 		rapid.SampledFrom(c20Malformed),
 		rapid.StringN(0, 6, 12),
+		// around the observer's initial size and the sizes/capacities it grows to
+		rapid.Map(rapid.Int32Range(1000, 3000), func(v int32) string { return strconv.Itoa(int(v)) }),
+		rapid.Map(rapid.Int32Range(1000, 3000), func(v int32) string { return strconv.Itoa(int(v)) }),
+		rapid.Map(rapid.Int32Range((1<<24)-3, (1<<24)+8), func(v int32) string { return strconv.Itoa(int(v)) }),
 	)
 	rapid.Check(t, func(rt *rapid.T) {
 		c := c20Case{Mode: rapid.SampledFrom([]string{"default", "lcm", "routing"}).Draw(rt, "mode"),
@@ -320,6 +446,9 @@ func TestVF_C20_Random(t *testing.T) {
 					o.MD[k] = []string{valGen.Draw(rt, "v")}
 				}
 			}
+			if rapid.IntRange(0, 4).Draw(rt, "hold") == 0 {
+				o.Hold = true
+			}
 			c.Opens = append(c.Opens, o)
 		}
 		err, h := c20Run(c)
@@ -334,4 +463,17 @@ func TestVF_C20_Random(t *testing.T) {
 			st.Sample(c)
 		}
 	})
+}
+
+// c20LockFree: with other handlers running concurrently the lock may be taken for an instant; it is "held" only if it
+// cannot be taken at all for two seconds.
+func c20LockFree(w *c20World) bool {
+	for i := 0; i < 2000; i++ {
+		if w.observer.streamGrowLock.TryLock() {
+			w.observer.streamGrowLock.Unlock()
+			return true
+		}
+		time.Sleep(time.Millisecond)
+	}
+	return false
 }
